@@ -65,6 +65,11 @@ CHECKS = {
     technique="Static SSA clauses and a path walker over the exported SSA graph in CfgTrace.tla; TLC explores every path up to the unrolling bound keeping the current version of each variable",
     text="On the SSA graph exported from the real code: one definition per version, phis only at block heads, every non-phi read dominated by its definition (path-based dominance computed in TLA+), every version declared, signals/components unversioned; and along every explored path each read names the version most recently assigned on that path and each phi met from a predecessor holds the version that reaches it. Bodies assign and read two locals in all rotated patterns (assigned in one branch only, in loops, read in conditions, for-loop counters).",
     note="Arrays updated element-wise and shadowed names are exercised by C10/C06 generators rather than here; bounded unrolling."),
+ "C10": dict(
+    level="model_checking", design="§5 C10",
+    technique="TLA+ reference resolver vs the renaming machine of unique_vars.rs and the SSA version key (Scopes.tla, TLC over all scope trees); TLC-generated trees with Ref's bindings rendered and lifted by the real code, IR names / SSA def-use / CS0001-CS0002 reports compared",
+    text="TLC enumerates every scope tree within the bounds (declarations and read-write uses of {x, x_0} up to 12 (14) expansion steps and of {x, y, x_0, x_1} up to 9 (11), optional parameter, nested and sibling blocks) and prints Ref's binding for every occurrence and the expected shadowing pairs. Each tree is rendered (blocks as plain blocks, if, if/else, while, for bodies), lifted by the real code and compared: equal (name, suffix) exactly for occurrences of one declaration; after SSA every read has a definition with its (name, suffix, version); the CS0001 reports are exactly the redeclarations of visible names with the shadowed declaration (or parameter list) as secondary label; repeated parameters give CS0002; sampled trees are run through the real binary to see the warnings displayed. L1: the transcribed renaming machine is faithful for every tree.",
+    note="Declarations carry initialisers and all uses are bound; occurrences are identified by literals."),
 }
 
 NOT_YET = "check not built yet (work in progress; see DESIGN.md §8 for the order)"
